@@ -1,6 +1,7 @@
 import PortusModel.Driver.Wire
 import PortusModel.Driver.Orc
 import PortusModel.Driver.Bkd
+import PortusModel.Driver.Ctl
 /-! `pmodel`: the line-protocol driver around the model's executable definitions. -/
 open Portus.Driver
 
@@ -8,13 +9,14 @@ def dispatch (cmd : String) (args : List String) : String :=
   match cmd with
   | "DEC" => dec args
   | "DECS" => decs args
-  | "ENC" => (encDp args).getD "BADARG"
+  | "ENC" => ((encDp args).orElse fun _ => encCtl args).getD "BADARG"
   | "RT" => rt args
   | "BKD" => bkd args
   | "ORC" => (match args with
     | "C04" :: rest => orcC04 rest
     | "C07" :: rest => orcC07 rest
     | "C08" :: rest => orcC08 rest
+    | "C06" :: rest => orcC06 rest
     | _ => "BADORC")
   | _ => "BADCMD"
 
